@@ -18,9 +18,9 @@ ASSUMPTIONS = [
     "where lseek / the read buffer start to refuse is machine dependent (file system limit, memory); the model takes the two limits as parameters "
     "(ElfDisk.v) and the harness passes the nominal 2**48 for both - values between 2**32 and 2**50 are not generated",
     "subprocess.run for the musl loader is a stand-in that raises what the real one raises for such an argv (ValueError: embedded NUL; "
-    "FileNotFoundError: the path is not in the case's list of existing loaders) and else returns the case's loader output; other failures of a real "
+    "FileNotFoundError: the path is not in the case's list of existing loaders; the code catches both: no musl) and else returns the case's loader output; other failures of a real "
     "exec (PermissionError, ENOEXEC) are not modelled",
-    "findings D27/D41/D42/D43 (mixed-list floor, musl loader exceptions, superset across glibc majors, iOS minors above 9): their law cases are "
+    "findings D27/D47/D48 (mixed-list floor, superset across glibc majors, iOS minors above 9): their law cases are "
     "generated only when the id is registered in known_findings.txt; the model-side streams cover the same inputs as agreement model = code",
     "version digits are ASCII; `\\d` and int() also accept other Unicode decimal digits (not modelled, not generated in the musl loader output)",
     "the OUTPUT of subprocess.run (the musl loader's banner, the macOS version re-read) is a parameter of the model",
@@ -33,7 +33,7 @@ TRUSTED_EXTRA = ["struct: the layout is modelled and proved (pack/unpack codec);
 # Departures of the code from the TEXT of the statement, confirmed on the real code.  Their law cases are generated only once the
 # finding is registered in known_findings.txt (ids below; proposed lines in harness/props/PROPOSED_FINDINGS_tags.txt), so that the
 # check is green with and without the registration; the matchers are narrow (input class and the observed wrong answer).
-ID_MIXED_FLOOR, ID_MUSL_RAISES, ID_CROSS_MAJOR, ID_IOS_MINOR = "D27", "D46-unregistered", "D47", "D48"
+ID_MIXED_FLOOR, ID_CROSS_MAJOR, ID_IOS_MINOR = "D27", "D47", "D48"
 REGISTERED = {f["id"] for f in core.load_findings("C16")}
 SEEK = READ = str(G.DISK_LIMIT)
 
@@ -53,10 +53,6 @@ def mixed_floor(archs):
 def match_d27(case, impl, model):
     return (case.cmd == "law.p.many2" and mixed_floor(plist(case.args[0])) and isinstance(impl, str)
             and impl.startswith("manylinux: tag below the per-architecture floor"))
-
-
-def match_d41(case, impl, model):
-    return case.cmd == "law.p.noraise" and impl in ("musllinux platform_tags raised ValueError", "musllinux platform_tags raised FileNotFoundError")
 
 
 def match_d42(case, impl, model):
@@ -218,8 +214,9 @@ def streams(rng, tier):
         M2 = rng.choice([M, M, M + 1, M + 2]); m2 = rng.choice([m, m + 1, rng.randrange(0, 56)])
         if M < M2 and (m > 50 or M < 2) and ID_CROSS_MAJOR not in REGISTERED: continue
         out.append(Case("law-manylinux-text", "law.p.many2", [enc_list(archs), str(M), str(m), str(M2), str(m2), G.rand_policy(rng, archs), exe_for(rng, archs)], kind="law"))
-    if ID_MUSL_RAISES in REGISTERED:
-        for _ in range(150 if q else 3000):
+    # _musllinux.platform_tags never raises, whatever sys.executable holds and whichever loader paths exist
+    for _ in range(150 if q else 3000):
+        if True:
             out.append(Case("law-musl-noraise", "law.p.noraise", [enc_list(rng.choice(G.GOOD_ARCH_LISTS)), musl_exe(rng), G.rand_musl_output(rng), rand_loaders(rng)], kind="law"))
     # ---- memoised probes across calls: several executables (keys), changing glibc / loader output, no cache_clear() in between
     for _ in range(250 if q else 5000):
